@@ -36,12 +36,19 @@ def replay_bands(arg):
     def fail(clause, manifestation, detail):
         fails.append(dict(case=dict(config=rec), clause=clause, manifestation=manifestation, detail=detail, features=feats))
     n = len(v)
-    # time 1: the sequence; time 2: the reversed sequence shifted (a second, different multiset position-wise)
-    rows = []
+    # time 1: the sequence; time 2: the reversed sequence (a second, different multiset position-wise).  The prediction
+    # frame lists the time points in ascending order or -- every other case -- the later time point first (frames of two
+    # sampling runs concatenated): the band at a time point is made of the samples AT that time point either way
+    rows1, rows2 = [], []
     for k, c in enumerate(v):
-        rows.append({'ID': k + 1, 'Time': 1.0, 'Observable': 'A', 'Value': val(c), 'Dose': np.nan, 'Duration': np.nan})
+        rows1.append({'ID': k + 1, 'Time': 1.0, 'Observable': 'A', 'Value': val(c), 'Dose': np.nan, 'Duration': np.nan})
     for k, c in enumerate(reversed(v)):
-        rows.append({'ID': k + 1, 'Time': 2.0, 'Observable': 'A', 'Value': val(c), 'Dose': np.nan, 'Duration': np.nan})
+        rows2.append({'ID': k + 1, 'Time': 2.0, 'Observable': 'A', 'Value': val(c) + 0.25, 'Dose': np.nan, 'Duration': np.nan})
+    later_first = int(digest(rec), 16) % 2 == 1
+    if later_first:
+        feats.append('times_not_ascending')
+        cnt['feat_times_not_ascending'] = 1
+    rows = (rows2 + rows1) if later_first else (rows1 + rows2)
     rows.append({'ID': 1, 'Time': 1.0, 'Observable': 'B', 'Value': 99.0, 'Dose': np.nan, 'Duration': np.nan})
     data = pd.DataFrame(rows)
     before = data.copy(deep=True)
@@ -65,11 +72,17 @@ def replay_bands(arg):
             p = Fraction(t.text.split(' ')[0]).limit_denominator(1000)
             x = np.asarray(t.x, dtype=float)
             y = np.asarray(t.y, dtype=float)
-            if list(x) != [1.0, 2.0, 2.0, 1.0]:
+            if len(x) != 4 or sorted(x[:2]) != [1.0, 2.0] or list(x[2:]) != list(x[:2])[::-1]:
                 fail('Bands', 'polygon_times', dict(cls=cls, x=list(x)))
                 continue
-            limits[p] = dict(upper=y[0], lower=y[3])          # time 1: upper first, lower last
+            i1 = list(x[:2]).index(1.0)                        # the polygon runs through the times and back
+            limits[p] = dict(upper=y[i1], lower=y[3 - i1], upper2=y[1 - i1], lower2=y[2 + i1])
         samples = [val(c) for c in v]
+        for p_, lim in limits.items():
+            # the limits drawn at time 2 are the limits of time 1 shifted by the offset of the time-2 samples
+            if not (np.isclose(lim['upper2'], lim['upper'] + 0.25, equal_nan=True) and
+                    np.isclose(lim['lower2'], lim['lower'] + 0.25, equal_nan=True)):
+                fail('LimitsAreSamples', 'limits_of_another_time_point', dict(cls=cls, p=str(p_), limits=lim))
         for b, p in zip(rec['bands'], probs):
             if p not in limits:
                 fail('Bands', 'missing_probability', dict(cls=cls, p=str(p)))
